@@ -15,7 +15,7 @@ for spec in "$@"; do
   for id in ${ids//,/ }; do
     ./check "$id" 2>&1 | grep -E "^\[|VIOLATION|KNOWN|INFRA|oracle:|first in-scope|proof stage" | cut -c1-300 >> "$out/$name.log"
   done
-  git -C /repo checkout -- .
+  git -C /repo checkout -- . && git -C /repo clean -fdq
   echo "== $name: $(grep -c VIOLATION "$out/$name.log") violation line(s)"
 done
 rm -rf evidence && mv "$bak/evidence" evidence && rmdir "$bak"
